@@ -153,7 +153,8 @@ def h_dir(ctx, mods, shape):
         if len(shape['files']) > 1:
             w.vfs.add_dir('/cwd/f1.bin')     # a directory of the cwd that happens to be called like a file of the pushed directory
     mtime = ctx.int('pmtime', 1, 2 ** 32 - 1)
-    o = w.try_call('push', src, '/sdcard/dd', mtime=mtime)
+    ddir = shape.get('device_dir', '/sdcard/dd')
+    o = w.try_call('push', src, ddir, mtime=mtime)
     ctx.observe('outcome', o.kind())
     if not o.ok:
         if isinstance(o.exc, FileNotFoundError):
@@ -164,7 +165,7 @@ def h_dir(ctx, mods, shape):
     pushed = {norm(p[0]): p for p in st.fs.pushed}
     ctx.check(len(st.fs.pushed) == len(files), 'one SEND...DONE per file of the directory', detail=str(list(pushed)))
     for name, content in files.items():
-        key = ('/sdcard/dd/%s,%d' % (name, 0o100770)).encode()
+        key = ('%s/%s,%d' % (ddir, name, 0o100770)).encode()
         if key not in pushed:
             ctx.fail("each file is sent to '<device_path>/<name>'", detail='%r not in %r' % (key, list(pushed)))
             continue
@@ -344,6 +345,8 @@ def shapes(tier, seed):
         for files in ([], [3], [5, 0, 2500]):
             out.append({'h': 'dir', 'impl': impl, 'maxdata': md, 'files': files})
         out.append({'h': 'dir', 'impl': impl, 'maxdata': md, 'files': [4, 2], 'cwd_is_dir': True})
+        for dd in ('/sdcard/My Photos', "/sdcard/it's (1) & more", '/sdcard/caf\u00e9'):
+            out.append({'h': 'dir', 'impl': impl, 'maxdata': md, 'files': [3, 1], 'device_dir': dd})
         if not q:
             out.append({'h': 'push', 'impl': impl, 'maxdata': 1 << 20, 'size': 4 << 20})
     return out
